@@ -310,6 +310,19 @@ func MoveNode(nc *nats.Conn, id, oldParent, newParent, origin string) error {
 		return errors.New("Error fetching node to get type")
 	}
 
+	// the move is two writes; make sure the second one (deleting the node
+	// from the old parent) can not be refused after the first one is stored
+	isChild := false
+	for _, n := range nodes {
+		if n.Parent == oldParent {
+			isChild = true
+		}
+	}
+
+	if !isChild || oldParent == "root" {
+		return errors.New("node is not a child of the old parent")
+	}
+
 	err = SendEdgePoints(nc, id, newParent, data.Points{
 		{Type: data.PointTypeTombstone, Value: 0, Origin: origin},
 		{Type: data.PointTypeNodeType, Text: nodes[0].Type, Origin: origin},
